@@ -46,7 +46,7 @@ prop('C20', level='proof',
 prop('C03', level='proof',
      claim='VM side (complete): type-soundness theorem of the real step function - for every program with a static typing and every state satisfying the dynamic invariant, each step keeps all accesses to data/code/stack inside their arrays (CBMC pointer/bounds obligations + the container model\'s index assertions) and re-establishes the invariant. Compiler side: per-mechanism contracts on gen.cpp where built.',
      note='Trusted: container model, CBMC. Not machine-checked: that a typing exists for every accepted source (whole-traversal invariant of the code generator); the induction over steps.',
-     explanation='Compiler side (per mechanism): fetchTemporary/fetchVariableRegister (registers of the frame, frame only grows), dispatchArgs (argnum grows with the frame, duplicate name is an error), popSymbols (table entry = entry/own stack map/arity/frame size), dispatchValue (PREPARE/ARG/EXEC taken from the table entry; arity rule), getMarkPos/dispatchMark/dispatchGoto (labels in range), backpatch (offset = label position - own position; unset label reported), gen_layout. VM side: ' + STEP_NOTE + 'C03 = WF(ip) & Inv => memory safety & Inv\' for every opcode; VM::execute is verified against the general step contract (callee replaced).',
+     explanation='Compiler side (per mechanism): fetchTemporary/fetchVariableRegister (registers of the frame, frame only grows), dispatchArgs (argnum grows with the frame, duplicate name is an error), popSymbols (table entry = entry/own stack map/arity/frame size), dispatchValue (PREPARE/ARG/EXEC taken from the table entry; arity rule), getMarkPos/dispatchMark/dispatchGoto (labels in range), backpatch (offset = label position - own position; unset label reported; a pending non-jump is an internal error and left alone), Theo::gen (position 0 is the root PREPARE patched with the frame size and stack map the root routine is entered with, and that frame size is the size of the root register table when generation ended; last instruction HALT; backpatch runs once after all code exists), getActivationVariables (bounded: reads only inside its own frame), gen_layout. VM side: ' + STEP_NOTE + 'C03 = WF(ip) & Inv => memory safety & Inv\' for every opcode; VM::execute is verified against the general step contract (callee replaced).',
      not_decided='existence of the static typing for every accepted source', trusted=VM_TRUST)
 
 prop('C01', level='proof',
@@ -58,8 +58,8 @@ prop('C01', level='proof',
 prop('C05', level='proof',
      claim='The step never reads stepping/enabled state except for its return value and break opcodes only advance ip (step contracts, assigns clauses); the debugger mutators change nothing but the enabled set and the op field of breakpoint sites, and only within {POTENTIAL_BREAK, BREAK} (contracts of setBreakPoint/clearBreakpoints/reset/setSteppingMode with ghost code index); non-interference over whole histories follows by induction over API calls (not machine-checked).',
      note='Trusted: container model incl. loop-free map/set lookups, N12 at-use hooks over the immutable tables, CBMC.',
-     explanation=STEP_NOTE + 'Debugger functions are extracted with normalisations N1/N2/N5/N6/N11/N12 and enforced against contracts in contracts/vm_dbg.c; loops closed by loop contracts.',
-     not_decided='induction over API histories; getActivationVariables', trusted=VM_TRUST + DBG_TRUST)
+     explanation=STEP_NOTE + 'Debugger functions are extracted with normalisations N1/N2/N5/N6/N11/N12 and enforced against contracts in contracts/vm_dbg.c; loops closed by loop contracts. getActivationVariables (bounded) and Program::disassemble (bounded) are observers: their frames contain only their results. vm_ctor: a new machine starts with nothing enabled.',
+     not_decided='induction over API histories', trusted=VM_TRUST + DBG_TRUST)
 
 prop('C06', level='proof',
      claim='executeSingle reports a stop exactly for BREAK, HALT, or POTENTIAL_BREAK while stepping (return-value clauses); execute stops exactly at such a stop (loop contract, callee replaced; partial correctness); getCurrentBreak returns the table entry of ip-1 or none, and none at ip=0; setBreakPoint succeeds exactly for listed locations, switches every site of the line and maintains the enabled set; clearBreakpoints/reset empty it.',
@@ -69,9 +69,9 @@ prop('C06', level='proof',
 
 prop('C17', level='proof',
      claim='reset() establishes the abstract state of a fresh machine (stepping off, ip 0, no data, no activations, nothing enabled, code changed only at site ops) with clearBreakpoints replaced by its contract; HALT has an empty assigns clause and returns true; execute from a halted state assigns nothing (conditional assigns clause); getCurrentBreak at ip 0 is none.',
-     note='Trusted: container model, CBMC. "Every later history behaves as on the fresh machine" = equal abstract states + functional contracts (meta-argument). The constructor is not under contract (deep copy of Program is library code).',
-     explanation=STEP_NOTE + 'Groups: step_HALT (empty assigns), execute (conditional assigns), dbg_reset, dbg_clearBreakpoints, dbg_isDone, dbg_getCurrentBreak.',
-     not_decided='constructor; completeness of the site restore in clearBreakpoints is in the thorough tier', trusted=VM_TRUST + DBG_TRUST)
+     note='Trusted: container model, CBMC. "Every later history behaves as on the fresh machine" = equal abstract states + functional contracts (meta-argument). The constructor is under contract (vm_ctor): its post-state is this abstract state; the deep copy of Program is library code and not expressible in the shallow container model.',
+     explanation=STEP_NOTE + 'Groups: step_HALT (empty assigns), execute (conditional assigns), dbg_reset, vm_ctor, dbg_clearBreakpoints, dbg_isDone, dbg_getCurrentBreak, gen_gen (the program ends with HALT).',
+     not_decided='the history meta-argument; privateness of the program copy', trusted=VM_TRUST + DBG_TRUST)
 
 
 
@@ -85,7 +85,7 @@ PARSE_TRUST = ['parser unit: std::vector<Token>::iterator is the index-based mod
 prop('C16', level='proof',
      claim='Mechanisms: a RUN of a name that is not in the program table is an UNKNOWN_PROGRAM_NAME error and emits no call of its own; an emitted EXEC enters the entry recorded in the table for that name (dispatchValue); the table entry of a routine is written by popSymbols, i.e. when the routine is finished, with its own entry/stack map/arity/frame size; every LOOP advances the loop number (private counter name) and ends with "counter := counter - 1; jump to the loop head" on one and the same counter register (dispatchLoop). Hence calls only reach finished routines: the call graph is acyclic (meta-argument).',
      note='dispatchValue and popSymbols are BOUNDED stand-ins (<= 2 call arguments; <= 2 marks / <= 2..3 registers / small tables). dispatchProgram is under contract with its callees replaced: popSymbols is called exactly once, after the whole body including RET exists, with the instruction after the skip-jump as entry (ghost record of the call). That funcAddrs has no other writer is not checked mechanically. The step count formula for LOOP programs is not decided.',
-     explanation='Groups genU_dispatchValue, genU_popSymbols, gen_dispatchLoop, gen_dispatchProgram.',
+     explanation='Groups genU_dispatchValue, genU_popSymbols, gen_dispatchLoop, gen_dispatchProgram, gen_gen (the root routine is closed exactly once, with entry 0, after the tree was generated), parse_S_prod (a PROGRAM definition is parsed as PROGRAM(SPLIT(name, ports), SPLIT(body, MARK(end)))), dbg_reset (no activation survives a reset).',
      not_decided='whole call-graph argument; halting bound', trusted=GEN_TRUST)
 
 prop('C08', level='proof',
@@ -109,10 +109,10 @@ prop('C02', level='proof',
      not_decided='lexer, macro engine, gen_ast/gen drivers, termination', trusted=PARSE_TRUST + GEN_TRUST + SCAN_TRUST)
 
 prop('C04', level='proof',
-     claim='Parser half: match records an error exactly when the token kind differs and consumes exactly one matching token; each nonterminal function, selected by the lookahead it saw, records no error only if the tokens it consumed spell its production (VALUE, VARGS, MVARGS, PORTS, OPORTS, ARGS, MARGS, MOREP in full; P, S, expected_end_or_semicolon: no node without an error, stop tokens). Static rules: literal range (strToInt).',
-     note='With the textbook LL(1) theorem (not machine-checked) this yields "no parser error <=> sentence" for the productions under full contract. Production conformance of P and S (the statement forms) is only partially under contract; unknown program / arity / unknown mark rules are not under contract yet; macros and the scanner are excluded.',
-     explanation='Same groups as C02 plus gen_strToInt.',
-     not_decided='P/S full conformance, static rules in dispatchValue/popSymbols, trailing-input loop of Theo::parse', trusted=PARSE_TRUST + GEN_TRUST)
+     claim='Parser half: match records an error exactly when the token kind differs and consumes exactly one matching token; each nonterminal function, selected by the lookahead it saw, records no error only if the tokens it consumed spell its production (VALUE, VARGS, MVARGS, PORTS, OPORTS, ARGS, MARGS, MOREP in full through the token array; P and S in full through a ghost trace: per lookahead the exact sequence of terminals and nonterminals of the production and the way the returned nodes are assembled into the tree; expected_end_or_semicolon: stop tokens). Static rules: literal range (strToInt), unknown program and argument count (dispatchValue, bounded), unset label reported by backpatch, a label is created exactly when a mark is new (dispatchGoto), unknown node kinds are MALFORMED_AST (dispatchVoid).',
+     note='With the textbook LL(1) theorem (not machine-checked) this yields "no parser error <=> sentence" for the productions under full contract. The recording callee contracts of P/S restate the clauses of the enforced callee contracts by hand. Macros, the lexer and the trailing-input loop of Theo::parse are excluded.',
+     explanation='Groups parse_* (contracts/parse.c), parse_P_prod / parse_S_prod (contracts/parse_prod.c), gen_strToInt, genU_dispatchValue, gen_backpatch, gen_dispatchGoto/Mark/If, gen_dispatchVoid, genU_gen_ast, gen_gen.',
+     not_decided='the LL(1) meta-argument joining the per-function contracts; trailing-input loop of Theo::parse; macros; lexer', trusted=PARSE_TRUST + GEN_TRUST)
 
 
 prop('C15', level='proof',
